@@ -41,6 +41,60 @@ def special_texts():
     return sorted(set(out))
 
 
+HEXD = "0123456789abcdefABCDEF"
+
+
+def escape_texts(rnd, n):
+    """string / bitstring literals exercising oq3_lexer::unescape: every escape form with digit runs of
+    every length 0..24 (scan_unicode's counters and accumulator), out-of-range values, bad digits,
+    unterminated forms, line continuations"""
+    out = []
+    for k in range(0, 25):
+        for d in ("0", "F", "7", "1"):
+            out.append('"\\u{' + d * k + '}"')
+            out.append('x = "a\\u{' + d * k + '}b";')
+            out.append('"\\u{' + d * k)
+            out.append('"\\u{' + d * k + '"')
+            out.append('"\\x' + d * k + '"')
+            out.append('"\\u{' + "_".join(d * k) + '}"')
+    simple = ['\\n', '\\t', '\\r', '\\0', '\\\\', "\\'", '\\"', '\\q', '\\', '\\x7f', '\\x80', '\\xff', '\\x4', '\\xg0',
+              '\\u', '\\u{', '\\u{}', '\\u{_1}', '\\u{d800}', '\\u{dfff}', '\\u{110000}', '\\u{10ffff}', '\\u{1f600}',
+              '\\u{0041', '\\u{zz}', '\\u 41', '\\\n   x', '\\\r\n x', '\r', '\n', '\t', 'é', '😀', "'", '\0']
+    for _ in range(n):
+        k = rnd.randint(0, 6)
+        body = "".join(rnd.choice(simple) if rnd.random() < 0.6 else
+                       ("\\u{" + "".join(rnd.choice(HEXD + "_") for _ in range(rnd.randint(0, 12))) + rnd.choice(["}", "", "}}"]))
+                       if rnd.random() < 0.5 else rnd.choice("ab01 _")
+                       for _ in range(k))
+        q = rnd.choice(['"', '"', "'"])
+        lit = q + body + rnd.choice([q, q, q, ""])
+        out.append(rnd.choice(["", "x = ", "include ", "bit[4] b = ", "pragma ", "@a "]) + lit + rnd.choice(["", ";", ";\n", "x"]))
+    return out
+
+
+def boundary_texts(ctx, C, bases, moduli=(64,), pad="x;\n"):
+    """for each base text: cut it after each of its last few non-trivia tokens and pad it in front with whole
+    statements so that the number of parser input tokens is exactly m-1, m, m+1 for each word size m
+    (bitset word boundaries of `Input::joint`, chunked buffers)"""
+    lines = [enc(t) for t in bases]
+    lex = C.run_impl(ctx, "lex", lines, tag="boundary-lex")
+    out = []
+    for t, l in zip(bases, lex):
+        if not l.startswith("raw="):
+            continue
+        f = dict(kv.split("=", 1) for kv in l.split(";") if "=" in kv)
+        n = len([x for x in f.get("input", "").split(",") if x])
+        for m in moduli:
+            for target in (m - 1, m, m + 1, 2 * m):
+                k = target - n
+                while k < 0:
+                    k += m
+                # pad tokens: `x;` = 2 tokens, `x` alone cannot stand (would fuse) -> use `;` for odd remainders
+                front = pad * (k // 2) + (";\n" if k % 2 else "")
+                out.append(front + t)
+    return out
+
+
 def enc(s):
     return ".".join("%x" % ord(c) for c in s)
 
